@@ -483,6 +483,23 @@ struct HnswFlushSnapshot {
     metadata: Vec<u8>,
 }
 
+/// The distance cached on an edge.
+///
+/// `validate_loaded_node` refuses a node
+/// whose cached edge distance is not finite, so the writer must never produce
+/// one: a distance that overflowed `f32` in the kernel (or `bf16`'s range in
+/// the conversion) is cached as the largest finite value, which keeps the edge
+/// the farthest of its list. Cached as `inf` / `NaN`, `flush` succeeded and
+/// the index then rejected its own output on load.
+fn edge_distance(dist: f32) -> bf16 {
+    let cached = bf16::from_f32(dist);
+    if cached.is_finite() {
+        cached
+    } else {
+        bf16::MAX
+    }
+}
+
 impl HnswIndex {
     /// Maximum number of in-flight node loads used by [`Self::load_nodes`].
     pub const LOAD_NODES_CONCURRENCY: usize = 32;
@@ -1094,7 +1111,7 @@ impl HnswIndex {
                     continue;
                 }
 
-                let dist_bf16 = bf16::from_f32(dist);
+                let dist_bf16 = edge_distance(dist);
                 // (1) Forward edge on the new node.
                 node_neighbors[current_layer_build as usize].push((neighbor_id, dist_bf16));
 
@@ -1191,7 +1208,7 @@ impl HnswIndex {
                         n_layer_list.extend(
                             selected
                                 .into_iter()
-                                .map(|(id, dist, _)| (id, bf16::from_f32(dist))),
+                                .map(|(id, dist, _)| (id, edge_distance(dist))),
                         );
                     }
                 }
@@ -1439,7 +1456,7 @@ impl HnswIndex {
                             layer_list.extend(
                                 selected
                                     .into_iter()
-                                    .map(|(cid, dist, _)| (cid, bf16::from_f32(dist))),
+                                    .map(|(cid, dist, _)| (cid, edge_distance(dist))),
                             );
                         }
                     }
